@@ -255,10 +255,14 @@ def rule_B2(ctx):
     if ok:
         g1, g2, g3 = gs[0][1], gs[1][1], gs[2][1]
         ok = g1[0][0] is sc.IN and g2[0][0] is sc.MAX_REPEAT and g2[0][1][0] == 0 and g2[0][1][1] == 1 and g3[0][0] is sc.IN and len(g3) == 1
-        neg, fl, touched = rx.class_items(g1[0][1])
-        rngs = sorted(av for op, av in g1[0][1] if op is sc.RANGE)
-        ok = ok and rngs == [(65, 71), (97, 103)]
-    ctx.ob("B2", rg, "note regex: ([A-Ga-g])(#?)(\\d) - letter, optional sharp, single-digit octave", ok, pat, inst="note-regex", file=MIDI, qualname="<module>")
+        # the text is upper-cased before matching: the letter class must take A..G and refuse H..Z; the sharp group is an
+        # optional '#'; the octave class must take every digit 0..9 (octaves 0-9 are printed by to_string)
+        if ok:
+            ok = all(rx.class_accepts(g1[0][1], ch) for ch in "ABCDEFG") and not any(rx.class_accepts(g1[0][1], ch) for ch in "HIJKLMNOPQRSTUVWXYZ#0123456789 ")
+            sharp = g2[0][1][2]
+            ok = ok and len(sharp) == 1 and sharp[0][0] is sc.LITERAL and sharp[0][1] == ord("#")
+            ok = ok and all(rx.class_accepts(g3[0][1], ch) for ch in "0123456789") and not any(rx.class_accepts(g3[0][1], ch) for ch in "ABCDEFG# -")
+    ctx.ob("B2", rg, "note regex: letter A-G, optional sharp, one octave digit 0-9 (every text to_string prints for octaves 0-9 parses)", ok, pat, inst="note-regex", file=MIDI, qualname="<module>")
     fs = ctx.fn(MIDI, "MidiNote.from_string", "B2")
     t = full(fs)
     ok = "scale_degree = ScaleDegree.from_string(matches.groups()[0])" in t and "is_sharp = len(matches.groups()[1]) > 0" in t and "octave = int(matches.groups()[2])" in t \
